@@ -377,6 +377,7 @@ func (fakeStream) RecvMsg(interface{}) error { return nil }
 type readStream struct {
 	fakeStream
 	msgs   []*btpb.ReadRowsResponse
+	sent   []*btpb.ReadRowsResponse // the very objects handed to Send (must not change afterwards)
 	OnSend func(n int)
 }
 
@@ -390,6 +391,7 @@ func yield(tag string) {
 func (s *readStream) Send(m *btpb.ReadRowsResponse) error {
 	c := roundTrip(m, &btpb.ReadRowsResponse{})
 	s.msgs = append(s.msgs, c)
+	s.sent = append(s.sent, m)
 	if s.OnSend != nil {
 		s.OnSend(len(s.msgs))
 	}
@@ -690,6 +692,14 @@ func (d *Driver) Apply(o *Op) (resp Resp) {
 		res := Resp{Code: c, Msg: msg, Rows: rows, Messages: len(st.msgs)}
 		if err == nil {
 			res.Malformed = bad
+		}
+		// grpc-go: "it is not safe to modify the message after calling SendMsg" (stats handlers,
+		// interceptors and in-process transports read it later): what was sent must still be what is there
+		for i := range st.sent {
+			if !proto.Equal(st.sent[i], st.msgs[i]) {
+				res.Malformed = fmt.Sprintf("response message #%d of %d was modified by the server after it had been handed to Send", i, len(st.sent))
+				break
+			}
 		}
 		return res
 	case "SampleRowKeys":
